@@ -279,11 +279,14 @@ class Ctx:
         missed = [c["id"] for c in picked if c["id"] not in rej]
         self.extra.setdefault("corrupt_trace_selftest", []).append(
             {"module": module, "altered": len(picked), "rejected": len(picked) - len(missed), "kinds": {str(k): v for k, v in seen.items()}})
-        if missed and not self.rejections:
-            raise Machinery(f"corrupt-trace self-test: {module} accepted altered records {missed[:5]}")
+        if len(missed) == len(picked) and not self.rejections:
+            # not one altered record was rejected: the specification does not constrain what the code returned
+            raise Machinery(f"corrupt-trace self-test: {module} accepted every altered record {missed[:5]}")
         if missed:
-            # the run already reports violations: they are the result; the self-test is inconclusive on such a tree
-            self.extra["corrupt_trace_selftest"][-1]["inconclusive_because_of_violations"] = missed[:5]
+            # an altered record can still be one the specification admits (it leaves choices open: several admissible
+            # metrics, unconstrained corner cells, requests it does not judge) - reported, not fatal; on a tree that
+            # already shows violations the self-test is inconclusive anyway
+            self.extra["corrupt_trace_selftest"][-1]["altered_but_still_admissible"] = missed[:5]
 
     # ---------------------------------------------------------------- bookkeeping
     def reject(self, key, what, record):
